@@ -20,6 +20,12 @@
      false = the code before fixes/C12-2 (public_byte: 65 bytes for an uncompressed key)
      true  = the repaired code (always the 33-byte compressed point, as BIP32 prescribes).
 
+   After the C04 repairs Key.__init__ refuses a private key whose number is not in 1 .. n-1 ([secret_in_range], n from
+   Gen.GenConsts) and, being strict, a public key that is not a curve point.  The model has no curve: the shape part
+   of that test (02/03 + 32 bytes, 04 + 64 bytes) is modelled, the numeric part (x < p, y < p, y^2 = x^3 + 7, resp.
+   x^3 + 7 a square) is the oracle [curve_ok : bytes -> bool] on the public key bytes, answered by the harness.
+   A [keymeta] stands for an existing key object, so the exporters refuse what Key.__init__ refuses.
+
    Not modelled (the functions answer [EUnmodelled]): BIP38 decryption (C15), tuple/point input, bytes input
    of lengths other than 32/33/65, integers outside 1 .. 2^256-1, non-hex text in the hex formats,
    whitespace inside hex text, Python's extended integer syntax in decimal strings, addresses (C05/C11: the
@@ -174,6 +180,16 @@ Section Lib.
 Variable fold : bool.          (* change_base's lower-casing retry (see Model/Base58.v) *)
 Variable wifcheck : bool.      (* fixes/C12-1 applied *)
 Variable pubser : bool.        (* fixes/C12-2 applied *)
+Variable curve_ok : bytes -> bool.   (* numeric part of the strict public-key check (oracle, see header) *)
+
+(* 0 < secret < n *)
+Definition secret_in_range (kb : bytes) : bool := (0 <? of_be kb) && (of_be kb <? secp256k1_n).
+
+(* the strict test of Key.__init__ on public key bytes *)
+Definition pub_strict_ok (b : bytes) : bool :=
+  (if Nat.eqb (length b) 65 then bytes_eqb (firstn 1 b) [x04]
+   else Nat.eqb (length b) 33 && (bytes_eqb (firstn 1 b) [x02] || bytes_eqb (firstn 1 b) [x03]))
+  && curve_ok b.
 
 Definition b58_bytes (s : bytes) : option bytes := lib_b58_dec fold s 0.
 
@@ -318,23 +334,33 @@ Definition key_private_part (k : key_input) (f : kformat) (compressed : bool) : 
   | _, _ => Err EUnmodelled
   end.
 
+Definition pub_checked (b : bytes) : res (bytes * bool) :=
+  if pub_strict_ok b then Ok (b, negb (Nat.eqb (length b) 65)) else Err EKey.
+
 Definition key_public_part (k : key_input) (f : kformat) : res (bytes * bool) :=
   match f, k with
   | FWifProtected, _ => Err EUnmodelled
   | FHdPublic, _ => Err EUnmodelled         (* Key(xpub): the text itself is hexlified *)
-  | _, KBytes b => Ok (b, negb (Nat.eqb (length b) 65))
+  | _, KBytes b => pub_checked b
   | _, KStr s => match hex_decode s with
-                 | Some b => Ok (b, negb (Nat.eqb (length b) 65))
+                 | Some b => pub_checked b
                  | None => Err EUnmodelled
                  end
   | _, KInt _ => Err EUnmodelled
+  end.
+
+(* the private part followed by the range check "0 < secret < n" *)
+Definition key_private_checked (k : key_input) (f : kformat) (compressed : bool) : res (bytes * bool) :=
+  match key_private_part k f compressed with
+  | Ok (kb, c) => if secret_in_range kb then Ok (kb, c) else Err EKey
+  | Err e => Err e
   end.
 
 (* Key(import_key, network=hint, compressed=compressed, is_private=ip) for a non-empty import_key *)
 Definition lib_key_import (k : key_input) (hint : option str) (compressed : bool) (ip : option bool)
   : res key_obj :=
   match lib_get_key_format k None with
-  | KfEmpty => Err EUnmodelled            (* a fresh random key is generated *)
+  | KfEmpty => match k with KInt _ => Err EKey | _ => Err EUnmodelled end   (* 0 is refused; '' / b'' : a fresh random key *)
   | KfUnmodelled => Err EUnmodelled
   | KfNoKey | KfAmbiguous => Err EKey
   | KfOk i =>
@@ -350,7 +376,7 @@ Definition lib_key_import (k : key_input) (hint : option str) (compressed : bool
       match net with
       | Err e => Err e
       | Ok nw =>
-          match (if priv then key_private_part k (kf_format i) compressed else key_public_part k (kf_format i)) with
+          match (if priv then key_private_checked k (kf_format i) compressed else key_public_part k (kf_format i)) with
           | Err e => Err e
           | Ok (kb, c) => Ok {| ko_private := priv; ko_key := kb; ko_compressed := c; ko_network := nw;
                                 ko_format := kf_format i |}
@@ -385,7 +411,8 @@ Definition xkey_fields (bkey : bytes) : option (bool * bytes * Z * bytes * Z * b
 Definition lib_hdkey_import (k : key_input) (hint : option str) (wt : option str) (ms : bool) (compressed : bool)
   : res hd_obj :=
   match lib_get_key_format k None with
-  | KfEmpty | KfUnmodelled => Err EUnmodelled
+  | KfEmpty => match k with KInt _ => Err EKey | _ => Err EUnmodelled end
+  | KfUnmodelled => Err EUnmodelled
   | KfNoKey | KfAmbiguous => Err EKey
   | KfOk i =>
       let wt1 := match kf_witness i, wt with
@@ -473,9 +500,14 @@ Record keymeta := {
 
 Definition km_public_byte (k : keymeta) : bytes := if km_compressed k then km_pubc k else km_pubu k.
 
+(* would Key.__init__ have built this object?  (private: range of the secret; public: the strict point test) *)
+Definition km_constructible (k : keymeta) : bool :=
+  if km_private k then secret_in_range (km_secret k) else pub_strict_ok (km_public_byte k).
+
 (* Key.wif() / HDKey.wif_key() with the network's own version byte *)
 Definition lib_wif (k : keymeta) : res bytes :=
-  if negb (km_private k) then Err EKey
+  if negb (km_constructible k) then Err EKey
+  else if negb (km_private k) then Err EKey
   else
     let v := of_be (km_secret k) in
     if v =? 0 then Err EKey
@@ -492,6 +524,7 @@ Definition xkey_raw (prefix : bytes) (depth : Z) (fp : bytes) (child : Z) (chain
 
 (* HDKey.wif(is_private=want_private) : wif_private() = true, wif_public() / wif() = false *)
 Definition lib_xkey (k : keymeta) (want_private : bool) : res bytes :=
+  if negb (km_constructible k) then Err EKey else
   match find_network (km_network k) with
   | None => Err ENetwork
   | Some n =>
